@@ -101,6 +101,19 @@ def sites():
             return None  # (their UPDATE .. FROM emulation derives a second alias  <name>_  from the supplied one: not a verbatim emission site)
         ta = _Table("t").as_(n)
         return str(Q.update(ta).join(u).on(ta.x == u.x).set(ta.x, u.y).where(ta.y == 2))
+    # tables made by the query class's factories, statements started from the table's shortcuts (they render with the class that made the table)
+    def factory_table_select(Q, n): return str(Q.Table(n).select("x"))
+    def factory_table_update(Q, n): return str(Q.Table(n).update().set("x", 1))
+    def factory_table_insert(Q, n): return str(Q.Table(n).insert(1))
+    def factory_tables_name(Q, n):
+        a, b = Q.Tables(n, ("u", "ub"))
+        return str(a.select(a.x)) + " ; " + str(b.select(b.y))
+    def factory_tables_pair_name(Q, n):
+        (a,) = Q.Tables((n, "al"))
+        return str(a.select(a.x).where(a.y == 1))
+    def factory_tables_pair_alias(Q, n):
+        (a,) = Q.Tables(("t", n))
+        return str(a.select(a.x).where(a.y == 1))
     def select_alias(Q, n): return str(Q.from_(t).select(t.x.as_(n)))
     def select_alias_groupby(Q, n):
         f = t.x.as_(n)
@@ -254,6 +267,8 @@ def engine_prepares(site, n, text):
 
 def names(tier, rnd):
     out = ["".join(p) for n in (1, 2) for p in itertools.product(ALPHABET, repeat=n)]
+    # long names (longer than the 30 / 63 / 64 / 128 character limits of the engines: the builder passes names through, it does not shorten them)
+    out += ["n" + "0123456789" * 4, "same_first_thirty_characters_x_1", "same_first_thirty_characters_x_2", "é" * 35, "w" * 70, "L" + "o" * 130 + "ng"]
     out += KEYWORDS + ["My Col", 'a"b"c', "x``y", "a.b.c", "ü ñ", "tab\tname", "x'--", "a]b[c"]
     # names that are SQL punctuation or syntax when left bare
     out += ["{0}", "{}", "x{collate}y", "{criterion}", "{table}", "%(a)s", "{{", "*", "%", "?", "(", ")", ",", ";", "--", "/*", "*/", "=", "t.*", "$1", "%s", ":p", "@v", "#", "x y", "NULL", "1"]
